@@ -125,3 +125,14 @@ Qed.
 Lemma bundled_pipeline_hyps : forall f g xs ys, In (f, g, xs, ys) bundled_files ->
   ssorted xs /\ (2 <= length xs)%nat /\ length xs = length ys.
 Proof. intros f g xs ys H. destruct (bundled_meet_pipeline_hyps f g xs ys H) as [H1 [H2 H3]]. repeat split; auto. now apply ssortedb_sound. Qed.
+
+(** ---- load_dataset's name dispatch and get_data_home, REGENERATED from datasets/_base.py (Gen/Dispatch.v) ---- *)
+From TW Require Import Gen.Dispatch.
+Lemma gen_replace_eq : forall a b s, gen_replace a b s = replace_char a b s.
+Proof. intros a b s; induction s as [|c s IH]; simpl; [reflexivity | rewrite IH; reflexivity]. Qed.
+Lemma gen_fun_name_eq : forall d, gen_fun_name d = fun_name d.
+Proof. intros d. unfold gen_fun_name, fun_name. rewrite gen_replace_eq. destruct (String.prefix "sandvine" d); reflexivity. Qed.
+Lemma gen_data_home_eq : forall a e, gen_data_home a e = data_home a e.
+Proof. intros [a|] [e|]; reflexivity. Qed.
+Lemma gen_dispatch_constants : gen_unknown_exn = "ValueError" /\ gen_env_var = "TRAFFIC_WEAVER_DATA" /\ gen_default_home = "~/.traffic-weaver-data".
+Proof. repeat split; reflexivity. Qed.
